@@ -91,6 +91,15 @@ theorem composed_read_timeout_rule (tr : List TraceKA.Ev) (t : Option Nat) (hacc
   obtain ⟨s, hs⟩ := hacc
   exact Mqtt5V.Proofs.TraceKA.read_timeout_rule hs
 
+/-- the same in the property's own numbers: with negotiated keep-alive K > 0 every read is started with the limit 1500 · K ms, with K = 0 with none -/
+theorem composed_read_limit_in_numbers (tr : List TraceKA.Ev) (t : Option Nat) (hacc : TraceKA.accepts (tr ++ [.rd t]) = true) :
+    (0 < negotiated (TraceKA.obs tr).ska (TraceKA.obs tr).cfg → t = some (1500 * negotiated (TraceKA.obs tr).ska (TraceKA.obs tr).cfg)) ∧
+    (negotiated (TraceKA.obs tr).ska (TraceKA.obs tr).cfg = 0 → t = none) := by
+  have h := composed_read_timeout_rule tr t hacc
+  constructor
+  · intro hk; rw [h]; exact read_timeout_is_one_and_a_half_keepalive _ hk
+  · intro hk; rw [h, hk]; rfl
+
 /- the premises are satisfiable, and the guards bite: keep-alive 5 s; the PINGREQ leaves when 5 s have passed, not before, and not later -/
 example : TraceKA.accepts [.cfg 5, .run, .rd (some 7500), .eol, .connUp none, .refresh, .eol, .adv 4999, .eol, .adv 1, .wr true false, .eol,
     .adv 300, .wrOk, .eol, .adv 4999, .eol, .adv 2, .wr true false, .eol] = true := by decide
